@@ -119,6 +119,9 @@ type Scenario struct {
 	ShapeAt int   `json:"shape_at,omitempty"`
 	Shape   *Item `json:"shape,omitempty"`
 	PwOK    bool  `json:"pwok"` // real family: the counterpart knows the right password
+	// real family, client role: the element kinds the counterpart's messages travel in (a record of
+	// SASL.tla's KindPlans), chosen independently of what the mechanism makes of them
+	Plan *KindPlan `json:"plan,omitempty"`
 	// shared family: the sessions negotiated with one feature value and the schedule
 	// ("seq": one after the other, "alt": alternating at every read on an empty transport,
 	// "nest": the second session runs while the first one waits for its first SASL item)
@@ -126,8 +129,18 @@ type Scenario struct {
 	Sched    string     `json:"sched,omitempty"`
 }
 
+// KindPlan: the receiver's i-th message of the mechanism travels in an element of kind Kinds[i]
+// (N = len(Kinds) messages); after the last one the receiver sends the elements of Tail, one
+// whenever the initiator reads on an empty transport, and then the byte stream ends.
+type KindPlan struct {
+	N     int      `json:"n"`
+	Kinds []string `json:"kinds"`
+	Tail  []string `json:"tail"`
+}
+
 // Pool is what EmitSASL.tla emits.
 type Pool struct {
+	KindPlans     []KindPlan  `json:"kindplans"`
 	CAlpha        []Item      `json:"calpha"`
 	SAlpha        []Item      `json:"salpha"`
 	CShaped       []Item      `json:"cshaped"` // every answer of a server with every payload shape
@@ -181,6 +194,7 @@ type run struct {
 	cpName  string
 	cpDone  bool
 	cpStep  int
+	planAt  int // real family with a kind plan: messages of the mechanism sent so far
 	pending []pend
 	answers int  // real family: elements of the counterpart handed to the library
 	verdict bool // script family: verdict of the permission callback at this step
@@ -669,6 +683,10 @@ func (r *run) counterServer(w *wrote) {
 			r.pending = append(r.pending, failureEl())
 			return
 		}
+		if r.cpDone && r.sc.Plan != nil {
+			// the tail of the plan is pending already: it does not depend on what the client writes
+			return
+		}
 		if r.cpDone {
 			// the mechanism finished on a <challenge/>; the client has answered it
 			switch dev {
@@ -684,6 +702,29 @@ func (r *run) counterServer(w *wrote) {
 	}
 }
 
+// planKind: the element kind of the counterpart's next message of the mechanism.
+func (r *run) planKind(honest string) string {
+	k := honest
+	if r.planAt < len(r.sc.Plan.Kinds) {
+		k = r.sc.Plan.Kinds[r.planAt]
+	}
+	r.planAt++
+	return k
+}
+
+func (r *run) planTail() {
+	for _, k := range r.sc.Plan.Tail {
+		switch k {
+		case "failure":
+			r.pending = append(r.pending, failureEl())
+		case "challenge":
+			r.pending = append(r.pending, el("challenge", nil, false))
+		default:
+			r.pending = append(r.pending, el(k, nil, true))
+		}
+	}
+}
+
 func (r *run) serverStep(w *wrote) {
 	dev := r.sc.Dev
 	more, resp, err := r.cp.Step(unb64(w.payload))
@@ -692,6 +733,15 @@ func (r *run) serverStep(w *wrote) {
 	case err != nil:
 		r.cp = nil
 		r.pending = append(r.pending, failureEl())
+	case r.sc.Plan != nil && more:
+		r.pending = append(r.pending, el(r.planKind("challenge"), resp, false))
+	case r.sc.Plan != nil:
+		// the mechanism is complete on the receiving side: its last message, if it has one, then the tail
+		r.cpDone = true
+		if len(resp) > 0 {
+			r.pending = append(r.pending, el(r.planKind("success"), resp, false))
+		}
+		r.planTail()
 	case more:
 		switch {
 		case dev == "success_while_more":
@@ -1181,7 +1231,11 @@ func (o *out) sharedPairs(stride, offset int, allScheds bool, tick func()) {
 
 func (o *out) emit(sc Scenario, evs []vt.Ev) {
 	o.runs++
-	o.byFam[sc.Fam+"/"+sc.Role]++
+	if sc.Plan != nil {
+		o.byFam["real-kindplan/"+sc.Role]++
+	} else {
+		o.byFam[sc.Fam+"/"+sc.Role]++
+	}
 	key, _ := json.Marshal(evs)
 	if !o.distinct[string(key)] {
 		o.distinct[string(key)] = true
@@ -1303,6 +1357,28 @@ func shapedReal(pool Pool) []Scenario {
 				}
 				scs = append(scs, Scenario{Fam: "real", Role: "server", Local: []string{"SCRAM-SHA-1", "PLAIN"}, Adv: []string{m.name}, Dev: "none", PwOK: true,
 					ShapeAt: at, Shape: &it})
+			}
+		}
+	}
+	return scs
+}
+
+// kindPlanned: the real mechanisms against a counterpart that knows the password (or not) and runs
+// the mechanism faithfully, but puts its messages into elements of the kinds of a plan of SASL.tla
+// (every assignment of <challenge/> / <success/> to the mechanism's messages x every tail).
+func kindPlanned(pool Pool) []Scenario {
+	var scs []Scenario
+	for _, m := range []struct {
+		name string
+		n    int // messages of the mechanism a server sends
+	}{{"PLAIN", 0}, {"SCRAM-SHA-1", 2}, {"SCRAM-SHA-256", 2}} {
+		for i := range pool.KindPlans {
+			if pool.KindPlans[i].N != m.n {
+				continue
+			}
+			for _, pw := range []bool{true, false} {
+				scs = append(scs, Scenario{Fam: "real", Role: "client", Local: []string{m.name}, Adv: []string{m.name}, Dev: "none", PwOK: pw,
+					Plan: &pool.KindPlans[i]})
 			}
 		}
 	}
@@ -1491,6 +1567,12 @@ func main() {
 			tick()
 		}
 		for _, sc := range shapedReal(pool) {
+			evs, _ := runScenario(sc)
+			o.emit(sc, evs)
+			tick()
+		}
+		// (5b) element kind and mechanism step varied independently for the real mechanisms
+		for _, sc := range kindPlanned(pool) {
 			evs, _ := runScenario(sc)
 			o.emit(sc, evs)
 			tick()
